@@ -49,6 +49,21 @@ CLAIMED = {
         "level": "Generated radii/volumes over 30 decades x dims 1-3 x scalar/array layouts; every conversion variant compared with textbook formulas and with each other; bounded search, no proof of the symbolic claim.",
         "note": "Trusts numpy/numba arithmetic; tolerances rtol 1e-13 (1e-7 for the numerical derivative).",
     },
+    "C18": {
+        "technique": _T + "; differential against the documented binary image, Otsu by definition, exact affine metamorphic relation",
+        "level": "Generated fields with exactly representable values on all grid families x five threshold rules x exact affine maps x minimal radii incl. exactly a found radius; byte-for-byte comparison with locate_droplets_in_mask(data > t_oracle), affine invariance, exact radius-filter sub-list; Otsu additionally on dense bimodal samples.",
+        "note": "numpy.histogram trusted for binning; Otsu near-ties between different masks and mean-rule knife edges skipped and counted.",
+    },
+    "C19": {
+        "technique": "exhaustive enumeration of the finite configuration cube (itertools) with a class/shape/layout oracle",
+        "level": "All 5184 combinations of grid family/periodicity x modes x width x refine x threshold rule x image are executed in both tiers (exhaustive: true); exact class, amplitude count, dimension, carried width, single dtype and formable tabular data.",
+        "note": "One fixed geometry per grid family; refinement quality is not judged here.",
+    },
+    "C20": {
+        "technique": "model-based testing: Hypothesis-generated operation sequences (as data) interpreted against a list model, plus exhaustive sequences over a 7-operation alphabet",
+        "level": "Three machines (Emulsion, EmulsionTimeCourse, DropletTrack/List), 1-50 (thorough 200) operations per sequence incl. ownership probes; model equality and independence of copies/slices after every step; summary queries vs definitions and under member reversal; all sequences of length <= 4 (5) over a small alphabet.",
+        "note": "append(copy=False) aliasing unspecified and not judged; remove_overlapping only checked to leave a sub-sequence (C10 has the details).",
+    },
 }
 
 _PENDING = "check not built yet in this revision of /verif (planned in DESIGN.md §4); no claim is made"
